@@ -834,6 +834,9 @@ func (h cachedHistogram) ValueBucket(
 	)
 
 	return reportSamplesFunc(func(value int64) {
+		// n.b. m is shared by every call made through this handle: set the
+		//      value on a copy so that concurrent calls do not race.
+		m := m
 		m.Value.Count = value
 		rep.reportCopyMetric(m, size, bucket, bucketID)
 	})
@@ -865,6 +868,9 @@ func (h cachedHistogram) DurationBucket(
 	)
 
 	return reportSamplesFunc(func(value int64) {
+		// n.b. m is shared by every call made through this handle: set the
+		//      value on a copy so that concurrent calls do not race.
+		m := m
 		m.Value.Count = value
 		rep.reportCopyMetric(m, size, bucket, bucketID)
 	})
